@@ -266,7 +266,13 @@ pub fn run(ctx: &Ctx, rep: &mut Report) {
         let counts: Vec<usize> = kinds.iter().map(|k| k.len() + if overlapped { 1 } else { 0 }).collect();
         let merges = multinomial(&counts);
         // triples only for the variants where it matters most in the quick tier
-        let use_vars: Vec<usize> = if kinds.len() == 3 && ctx.quick() { vec![0, 1, 2, 3] } else { (0..vars.len()).collect() };
+        let use_vars: Vec<usize> = if kinds.len() == 3 && overlapped {
+            vec![0, 2] // 5.7 M event-level merges per variant: endpoint and path-segmentation only
+        } else if kinds.len() == 3 && ctx.quick() {
+            vec![0, 1, 2, 3]
+        } else {
+            (0..vars.len()).collect()
+        };
         let n = merges * use_vars.len() as u64;
         let fam = format!("merges-{}", gname);
         ctx.family(
